@@ -19,7 +19,7 @@ ASSUMPTIONS = [
 ]
 COMPONENTS = {"real": ["allocator", "mark", "weak reset", "finalizers", "sweep", "heap growth", "VM and libraries producing the objects"],
               "stub": ["collection schedule", "clock"]}
-BUDGET = {"quick": {"seconds": 60, "cases": 3000}, "thorough": {"seconds": 1200, "cases": 200000}}
+BUDGET = {"quick": {"seconds": 60, "cases": 3000, "min_cases": 80}, "thorough": {"seconds": 1200, "cases": 200000}}
 CONFIGS = {
     "sim": {"variant": "sim", "imports": ["(srfi 18)", "(srfi 69)", "(chibi weak)", "(rename (only (chibi) read) (read core-read))"], "timeout_ms": 120000},
     "asan": {"variant": "asan", "imports": ["(srfi 18)", "(srfi 69)", "(chibi weak)", "(rename (only (chibi) read) (read core-read))"], "timeout_ms": 300000},
